@@ -2172,6 +2172,14 @@ class CapacityLimiter(BaseCapacityLimiter):
         try:
             self.acquire_on_behalf_of_nowait(borrower)
         except WouldBlock:
+            # The wait queue has exactly one slot per borrower; a second waiter for the
+            # same borrower would overwrite (and later delete) the first one's slot
+            if borrower in self._wait_queue:
+                raise RuntimeError(
+                    "this borrower is already waiting for one of this "
+                    "CapacityLimiter's tokens"
+                ) from None
+
             event = asyncio.Event()
             self._wait_queue[borrower] = event
             try:
